@@ -145,7 +145,11 @@ def random_plan(seed, idx):
             if r.random() < 0.15:
                 k2 = r.choice(KEYS)
                 extra = [["offer", k2[0], k2[1], k2[2], k2[3], r.choice([0, 1, 2, INF_TTL])]]
-            b.offer(p, key, r.choice([1, 1, 2, 3, INF_TTL]), ch, extra)
+            second = None
+            if r.random() < 0.08:
+                k3 = r.choice(KEYS)  # a second SD message in the same datagram
+                second = [["offer", k3[0], k3[1], k3[2], k3[3], r.choice([0, 1, 3, INF_TTL])]]
+            b.offer(p, key, r.choice([1, 1, 2, 3, INF_TTL]), ch, extra, second=second)
         elif k < 0.50:
             b.offer(p, key, 0, ch)
         elif k < 0.65:
